@@ -1172,6 +1172,55 @@ static void run_c08_perturb(const Case &c) {
 #endif
 }
 
+// C07, uninitialised / freed memory that influences results: the plain build answers the same generated
+// queries on two builds of the same case, once with every fresh heap block filled with 0x11 and once with
+// 0xEE (glibc M_PERTURB; freed blocks get the complement).  An answer that differs between the two runs was
+// computed from memory the library never wrote (or had already freed).
+static void run_c07_perturb(const Case &c, XorShift &x0) {
+#ifdef VERIF_PLAIN
+  attr_override = "C07";
+  std::vector<std::string> ans[2];
+  std::vector<Query> qs;
+  bool ok = true;
+  for (int k = 0; k < 2 && ok; k++) {
+    XorShift x = x0;
+    mallopt(M_PERTURB, k ? 0xEE : 0x11);
+    cur->state = "fresh";
+    StringDictionary *d = do_build(c);
+    if (!d) { ok = false; break; }
+    Obj o{d, c.p.kind, c.S.size()};
+    qs = gen_queries(c, x, 60);
+    for (auto &q : qs) ans[k].push_back(answer(o, q));
+    bool alive = !obj_dead;
+    std::string img;
+    bool sv = alive && do_save(d, img);
+    do_destroy(d);
+    if (sv) {
+      cur->state = "own";
+      StringDictionary *l = do_load(c, img, true);
+      if (l) {
+        Obj ol{l, c.p.kind, c.S.size()};
+        for (auto &q : qs) ans[k].push_back(answer(ol, q));
+        do_destroy(l);
+      } else ok = false;
+    } else ok = false;
+  }
+  mallopt(M_PERTURB, 0);
+  if (ok && ans[0].size() == ans[1].size()) {
+    cur->labels.insert("c07_perturb_pair");
+    for (size_t i = 0; i < ans[0].size(); i++)
+      if (ans[0][i] != ans[1][i] && ans[0][i] != "<died>" && ans[1][i] != "<died>" && ans[0][i] != "<skipped>" && ans[1][i] != "<skipped>") {
+        const Query &q = qs[i % qs.size()];
+        ev("C07", "uninitialised-memory-influences-result", std::string(i < qs.size() ? "fresh" : "loaded") + " object: " + q_render(q) + " answers " + hexs(ans[0][i].substr(0, 100)) + " under heap fill 0x11 and " + hexs(ans[1][i].substr(0, 100)) + " under 0xEE");
+        break;
+      }
+  }
+  attr_override.clear();
+#else
+  (void)c; (void)x0;
+#endif
+}
+
 // ------------------------------------------------------------------ C12: tuning parameters never change answers
 static bool params_differ_in_layout(const Case &a, const Case &b) {
   int k = a.p.kind;
@@ -1591,6 +1640,9 @@ int run_case(const uint8_t *data, size_t n, CaseCtx &ctx) {
   } else if (P == "C14") {
     run_c14(c, x);
     ctx.nontrivial = ctx.labels.count("c14_twin_and_repeat");
+  } else if (P == "C07" && cfg.param == "perturb") {
+    run_c07_perturb(c, x);
+    ctx.nontrivial = nn >= 2 && ctx.labels.count("c07_perturb_pair");
   } else if (P == "C07") {
     run_c07(c, x);
     ctx.nontrivial = nn == 1 || ctx.feats.count("n_mult_bucket") || ctx.feats.count("maxlen_ge128") || ctx.feats.count("memalloc_small") || ctx.labels.count("iterator_abandoned");
